@@ -18,10 +18,12 @@ git -C /repo worktree add -q $wt HEAD
 pkg=./$(dirname $demo)
 cp $dst/zz_demo_test.go $wt/$demo
 tests=$(grep -o '^func Test[A-Za-z0-9_]*' $dst/zz_demo_test.go | sed 's/func //' | paste -sd'|')
-(cd $wt && go test -vet=off -count=1 -timeout 600s -run "^($tests)\$" $pkg > /tmp/seed_$id.base.log 2>&1); base=$?
+(cd $wt && go test -v -vet=off -count=1 -timeout 600s -run "^($tests)\$" $pkg > /tmp/seed_$id.base.log 2>&1); base=$?
+if grep -q -- "^--- FAIL\|^    --- FAIL" /tmp/seed_$id.base.log; then base=1; fi
 (cd $wt && git apply $dst/patch.diff) || { echo "patch does not apply to HEAD"; }
 (cd $wt && go build ./... > /tmp/seed_$id.build.log 2>&1); build=$?
-(cd $wt && go test -vet=off -count=1 -timeout 600s -run "^($tests)\$" $pkg > /tmp/seed_$id.mut.log 2>&1); mut=$?
+(cd $wt && go test -v -vet=off -count=1 -timeout 600s -run "^($tests)\$" $pkg > /tmp/seed_$id.mut.log 2>&1); mut=$?
+if grep -q -- "^--- FAIL\|^    --- FAIL" /tmp/seed_$id.mut.log; then mut=1; fi
 git -C /repo worktree remove --force $wt
 echo "demo on unchanged: exit=$base (want 0); build with change: exit=$build (want 0); demo with change: exit=$mut (want non-zero)"
 # run our check with the change applied to /repo, then undo
